@@ -4,9 +4,25 @@ EXTENDS PersistenceWF, Json
    loads share (`shared`: none when the cached getters deep-copy, DeepCopy = TRUE, the code since fix 1d9dc38;
    `shared_if_shallow`: the byref fields of cached rows, shared under cachebox' default post-processing), which
    fields every load owns, the aliasing profile.  No transitions.                                               *)
-GenInit == /\ shape \in Shapes /\ profile = ProfileOf(shape) /\ InitHist
+GenInit == /\ shape \in Shapes /\ profile = ProfileOf(shape) /\ InitHist /\ InitGraphN(99)     \* 99: a shape, not a re-save history
            /\ PrintT(ToJson([shape |-> shape, shared |-> (IF DeepCopy THEN {} ELSE SharedFields(shape)),
                              shared_if_shallow |-> SharedFields(shape), copied |-> CopiedFields(shape),
                              fresh |-> FreshFields, profile |-> profile]))
 GenNext == FALSE /\ UNCHANGED vars
+
+(* Part 3, B-edge: one JSON line per transition of the re-save graph (sets rendered as sorted sequences by the driver) *)
+GraphJ(g) == [steps |-> g.steps, ports |-> g.ports, edges |-> g.edges]
+KeyRe(m, d, l, n, lt, r) == [mem |-> GraphJ(m), db |-> GraphJ(d), lastsaved |-> GraphJ(l), nops |-> n, late |-> lt,
+                         reload |-> r.ctx]
+EmitRe(name, args) == PrintT(ToJson([from |-> KeyRe(mem, db, lastsaved, nops, late, reload), to |-> KeyRe(mem', db', lastsaved', nops', late', reload'),
+                                    act |-> name, args |-> args, ok |-> LoadReproducesLastSaved']))
+GenNextRe == \/ \E p \in GPorts : AddPort(p) /\ EmitRe("add_port", <<p>>)
+             \/ \E st \in GSteps, p \in GPorts, d \in {"in", "out"} : AddWire(st, p, d) /\ EmitRe("add_wire", <<st, p, d>>)
+             \/ \E st \in GSteps, p \in GPorts : AddStep(st, p) /\ EmitRe("add_step", <<st, p>>)
+             \/ SaveWf /\ EmitRe("save", <<>>)
+             \/ \E c \in {"L", "B"} : LoadWf(c) /\ EmitRe("load", <<c>>)
+
+\* both generations in one run: the shapes (initial states without successors) and the re-save graph
+GenInitAll == GenInit \/ InitRe
+GenNextAll == nops < 99 /\ GenNextRe
 =============================================================================
